@@ -1237,7 +1237,7 @@ fn main() {
     let n_mgr = if miri {
         0
     } else if tsan {
-        args.size(6, 6)
+        args.size(24, 24)
     } else {
         args.size(600, 24_000)
     };
